@@ -149,7 +149,7 @@ EXTRA = {
     'C11': ' in_flight_cap_packets, the quality multiplier and the RTT bonus are verified against explicit spec functions over uninterpreted float operations (the documented formulas: which constants, operations and operands); the dispatcher hands the previous choice to the enhanced selector unchanged; every routed packet becomes the hysteresis anchor.',
     'C12': ' lemma_quality_ignores_stall_history: the quality factor is a function of age, NAK history and smoothed RTT only, so two links differing only in stall history score the same (proved from the spec function the real body is verified against); lemma_soft_cap_ignores_stall_history: the same for the soft-cap factor (a function of CC target and measured bitrate only, real body verified against spec_soft_cap); with the guard off no flag or latch is left when a packet is routed.',
     'C14': ' REG3 handling and reset_for_reconnect leave the keepalive cadence clock alone; RttTracker::reset (verified body) cancels the outstanding probe.',
-    'C17': ' The throughput measurement restarts from zero on every reconnect (BitrateTracker::reset); REG_ERR disconnects the link.',
+    'C17': ' The standing-queue signal the classifier reads (RttTracker::queue_building_suspected) is a verified body against spec_queue_building: false without an RTT baseline, else gradient > max(3 x MASD, 5 % of min RTT). The throughput measurement restarts from zero on every reconnect (BitrateTracker::reset); REG_ERR disconnects the link.',
     'C18': ' ErrorObject::new with a char-boundary panic model for String::truncate / split_off; the serde derive attributes of Request are audited (serde itself is trusted, its configuration is not).',
     'C19': ' Resets, reconnects and the constructor keep the identity a reload matches on (id, label, local address); the SIGHUP entry point analyses the whole file.',
 }
